@@ -48,14 +48,15 @@ Proof.
     { unfold s. cbn [span_digits]. rewrite Dc. destruct (span_digits r). cbn. discriminate. }
     destruct (fst (span_digits s)) as [|d ds] eqn:E; [congruence|].
     pose proof (value_fits (d :: ds) A1 R1) as F.
-    cbn [option_map fst snd tok_item]. rewrite Z.min_l by lia. reflexivity.
+    cbn [option_map fst snd tok_item]. rewrite cvalue_spec by (auto; unfold i64max; lia). rewrite Z.min_l by lia. reflexivity.
   - assert (fst (span_digits s) = []) as ->.
     { unfold s. cbn [span_digits]. rewrite Dc. reflexivity. }
     destruct ((c =? 46) || (c =? 95))%N; [reflexivity|].
     destruct (prefix_ci m_nb s).
     { cbn [option_map fst snd tok_item]. f_equal. f_equal. f_equal.
       destruct (fst (span_digits (skipn 2 s))) as [|d ds] eqn:E; [reflexivity|].
-      pose proof (value_fits (d :: ds) A2 R2) as F.
+      pose proof (value_fits (d :: ds) A2 R2) as F. cbv zeta.
+      rewrite (crev_eq (d :: ds)) by exact A2.
       replace (value (d :: ds) <=? i64max) with true by (symmetry; apply Z.leb_le; lia). reflexivity. }
     unfold modifiers. cbn [find fst].
     destruct (prefix_ci m_alpha s); [reflexivity|].
@@ -124,13 +125,17 @@ Proof.
   destruct (is_digit c) eqn:Dc.
   - assert (fst (span_digits s) <> []) as Hne.
     { unfold s. cbn [span_digits]. rewrite Dc. destruct (span_digits r). cbn. discriminate. }
-    destruct (fst (span_digits s)) as [|d ds] eqn:E; [congruence|]. reflexivity.
+    pose proof (span_digits_all s) as A1.
+    destruct (fst (span_digits s)) as [|d ds] eqn:E; [congruence|].
+    cbn [option_map fst snd tok_item sat_item]. rewrite cvalue_spec by (auto; unfold i64max; lia). reflexivity.
   - assert (fst (span_digits s) = []) as ->.
     { unfold s. cbn [span_digits]. rewrite Dc. reflexivity. }
     destruct ((c =? 46) || (c =? 95))%N; [reflexivity|].
     destruct (prefix_ci m_nb s).
     { cbn [option_map fst snd tok_item sat_item]. f_equal. f_equal. f_equal.
-      destruct (fst (span_digits (skipn 2 s))) as [|d ds] eqn:E; reflexivity. }
+      pose proof (span_digits_all (skipn 2 s)) as A2.
+      destruct (fst (span_digits (skipn 2 s))) as [|d ds] eqn:E; [reflexivity|]. cbv zeta.
+      rewrite (crev_eq (d :: ds)) by exact A2. reflexivity. }
     unfold modifiers. cbn [find fst].
     destruct (prefix_ci m_alpha s); [reflexivity|].
     destruct (prefix_ci m_beta s); [reflexivity|].
